@@ -40,7 +40,11 @@ def gen_case(rnd, quick):
         if cfg == "ini" and L == 0 and N == 0:
             pass
     return {"cfg": cfg, "n": n, "size": size, "nthreads": nthreads, "fatal_thread": fatal_thread, "L": L, "N": N,
-            "opts": opts, "withapp": rnd.randint(0, 1), "stderr": rnd.choice(["null", "null", "full"])}
+            "opts": opts, "withapp": rnd.randint(0, 1), "stderr": rnd.choice(["null", "null", "full"]),
+            "reruns": rnd.choice([1, 1, 1, 2, 3, 4]) if n <= 2000 else 1}
+
+
+BASE = 1000000
 
 
 def text_of(i, size):
@@ -54,25 +58,21 @@ def run_case(ctx, exe, case, idx):
     os.makedirs(logd)
     evf = os.path.join(d, "ev")
     env = core.base_env(d)
-    argv = [exe, "fatal", evf, case["cfg"], logd, str(case["n"]), str(case["size"]), str(case["nthreads"]),
-            str(case["fatal_thread"]), str(case["L"]), str(case["N"]), str(case["opts"]), str(case["withapp"])]
-    try:
-        # the console the logger also writes to may be gone or unwritable; that must not keep the file sinks from being flushed
-        how = case.get("stderr", "null")
-        if how == "full" and os.path.exists("/dev/full"):
-            errf = open("/dev/full", "wb")
-        elif how == "closed":
-            errf = None
-        else:
-            errf = subprocess.DEVNULL
-        if errf is None:
-            r = subprocess.run(["sh", "-c", 'exec "$@" 2>&-', "sh"] + argv, env=env, stdout=subprocess.DEVNULL, timeout=600)
-        else:
+    rc, err = -6, ""
+    accepted = 0
+    for run in range(case.get("reruns", 1)):
+        # a crash loop: the same program with the same number and size of messages, again and again over the same directory
+        argv = [exe, "fatal", evf, case["cfg"], logd, str(case["n"]), str(case["size"]), str(case["nthreads"]),
+                str(case["fatal_thread"]), str(case["L"]), str(case["N"]), str(case["opts"]), str(case["withapp"]), str(run * BASE)]
+        try:
+            how = case.get("stderr", "null")
+            errf = open("/dev/full", "wb") if (how == "full" and os.path.exists("/dev/full")) else subprocess.DEVNULL
             r = subprocess.run(argv, env=env, stdout=subprocess.DEVNULL, stderr=errf, timeout=600)
-        rc = r.returncode
-        err = ""
-    except subprocess.TimeoutExpired:
-        rc, err = "timeout", ""
+            rc = r.returncode
+        except subprocess.TimeoutExpired:
+            rc = "timeout"
+        if rc != -6:
+            break
     res = {"rc": rc, "err": err[-600:], "files": {}}
     if rc == -6:
         for fname in ("app.log", "warn.log"):
@@ -81,7 +81,7 @@ def run_case(ctx, exe, case, idx):
                 res["files"][fname] = (data, bad)
         res["listing"] = sorted((n, os.path.getsize(os.path.join(logd, n))) for n in os.listdir(logd))
         try:
-            res["accepted"] = sum(1 for l in open(evf) if l.startswith("A "))
+            res["accepted"] = sum(1 for l in open(evf) if l.startswith("A ")) // max(1, case.get("reruns", 1))
         except OSError:
             res["accepted"] = -1
     shutil.rmtree(d, ignore_errors=True)
@@ -89,7 +89,15 @@ def run_case(ctx, exe, case, idx):
 
 
 def judge(ctx, case, res):
-    """yields (key, what)"""
+    """yields (key, what): every run of the crash loop is judged on its own ids (run r uses ids r*BASE + i)"""
+    R = case.get("reruns", 1)
+    for run in range(R):
+        sub = dict(case, reruns=1)
+        for key, what in judge_run(ctx, sub, res, run * BASE, last=(run == R - 1), runs=R):
+            yield (key + (":crash-loop" if R > 1 else ""), ("run %d of %d: " % (run + 1, R) if R > 1 else "") + what)
+
+
+def judge_run(ctx, case, res, base, last, runs):
     cfg, n, size = case["cfg"], case["n"], case["size"]
     T = case["nthreads"] + 1
     rotating = cfg != "fluent" and (case["L"] > 0 or case["opts"] & 3 or cfg in ("fluentrot", "nested", "nestedcat", "ini", "nestedfirst", "badfirst"))
@@ -115,8 +123,11 @@ def judge(ctx, case, res):
             m = ID_RE.search(ln)
             if not m:
                 continue
-            i = int(m.group(1))
-            want = text_of(i, size).encode() if i != n else b"id=%d; FATAL-END" % n
+            gid = int(m.group(1))
+            if not (base <= gid <= base + n):
+                continue                     # another run of the crash loop
+            i = gid - base
+            want = text_of(gid, size).encode() if i != n else b"id=%d; FATAL-END" % gid
             if want not in ln:
                 torn += 1
                 continue
@@ -125,6 +136,8 @@ def judge(ctx, case, res):
             yield ("C11:duplicate-record", "%s: duplicated ids" % fname)
         seenset = set(seen)
         fatal_expected = n in ids
+        if fatal_expected and n not in seenset and not last and retention and fname == "app.log" and not seenset:
+            continue                         # an earlier run of the loop whose files retention has removed entirely
         if fatal_expected and n not in seenset:
             yield ("C11:fatal-line-missing:cfg=%s" % ("rotating" if rotating else "plain"),
                    "%s lacks the fatal line (n=%d size=%d files=%s)" % (fname, n, size, res.get("listing")))
@@ -142,15 +155,15 @@ def judge(ctx, case, res):
                    "%s lacks %d of %d predecessors (first missing id=%d, last=%d; n=%d size=%d threads=%d) torn=%d files=%s"
                    % (fname, len(missing), len(ids), missing[0], missing[-1], n, size, T, torn, res.get("listing")))
         # per-thread order and fatal last
-        last = {}
+        lastid = {}
         for pos, i in enumerate(seen):
             if i == n:
                 continue
             t = i % T
-            if t in last and last[t] > i:
-                yield ("C11:order", "%s: thread %d id %d after %d" % (fname, t, i, last[t]))
+            if t in lastid and lastid[t] > i:
+                yield ("C11:order", "%s: thread %d id %d after %d" % (fname, t, i, lastid[t]))
                 break
-            last[t] = i
+            lastid[t] = i
         if fatal_expected and n in seenset and seen and seen[-1] != n:
             yield ("C11:fatal-not-last", "%s: records after the fatal line" % fname)
 
@@ -192,7 +205,7 @@ def run(ctx):
             ctx.violation(key, "%s :: %s" % (case, what), case)
         total_bytes = case["n"] * case["size"]
         sig = (case["cfg"], case["n"], case["size"], case["nthreads"], case["fatal_thread"] != 0, case["L"], case["N"], case["opts"],
-               case.get("stderr"))
+               case.get("stderr"), case.get("reruns", 1))
         if case["n"] > 0:
             distinct.add(sig)
         k = "%s/%s" % (case["cfg"], "above-16KiB" if total_bytes > 16384 else "below-16KiB")
@@ -203,7 +216,7 @@ def run(ctx):
         "evaluations": evals,
         "distinct_nontrivial": len(distinct),
         "rule": "one child process per case: configuration kind x number/size of predecessors x producer threads x thread raising qFatal x "
-                "rotation options x state of the process's stderr (discarded, /dev/full); non-trivial = at least one predecessor; distinct by the full parameter tuple",
+                "rotation options x state of the process's stderr (discarded, /dev/full) x crash loop (the same program 1-4 times over one directory); non-trivial = at least one predecessor; distinct by the full parameter tuple",
         "samples": samples,
         "cases_by_configuration_and_buffer_class": sig_counts,
         "fault": "process termination by qFatal -> abort() (SIGABRT) after the message handler returns; observed exit status -6 in every child",
